@@ -39,6 +39,7 @@ type blockedSignal struct{ what string }
 // the operation under test.
 func (vm *VM) schedPoint(what string) {
 	vm.concSchedPoint(what)
+	vm.goroutinePreemptPoint(what)
 	P := vm.P
 	if P.interpose == nil || P.interposeBudget <= 0 || P.curThread != 1 || vm.inInit || P.inSchedPoint {
 		return
@@ -158,6 +159,31 @@ func (vm *VM) concSchedPoint(what string) {
 	}
 }
 
+// goroutinePreemptPoint: with vPreemptGoroutines(n) a goroutine started by `go` (run through
+// vRunPending / vRunPendingAt) may be preempted at its scheduling points (lock, unlock, atomic
+// when enabled, file-system call), at most n times per path in total: it goes back to the set of
+// runnable goroutines, from which the scheduler picks by choice.  Without it goroutines run
+// without preemption up to their next blocking operation.
+func (vm *VM) goroutinePreemptPoint(what string) {
+	P := vm.P
+	co := vm.co
+	if co == nil || co == P.conc || P.gorPreempt <= 0 || vm.inInit {
+		return
+	}
+	if what == "atomic" && !P.interposeAtomics {
+		return
+	}
+	if vm.chooseLogged(2) == 0 {
+		return
+	}
+	P.gorPreempt--
+	co.ready, co.what = func() bool { return true }, "preempted at "+what
+	co.yield <- coroMsg{}
+	if !<-co.resume {
+		panic(abortCoro{})
+	}
+}
+
 // concJoin lets the second thread run to its end (it is no longer preempted).
 func (vm *VM) concJoin() {
 	P := vm.P
@@ -209,6 +235,7 @@ type coro struct {
 	yield   chan coroMsg
 	ready   func() bool
 	what    string
+	sendOn  *Object // parked in a send on this (full) channel
 	started bool
 	// interpreter context while parked
 	cur        *Frame
@@ -326,20 +353,27 @@ func (vm *VM) abortCoros() {
 // that can go on.  Returns whether any of them ran.
 func (vm *VM) resumeReady() bool {
 	any := false
-	for progress := true; progress; {
-		progress = false
-		for i := 0; i < len(vm.P.parked); i++ {
-			co := vm.P.parked[i]
-			if co.ready == nil || !co.ready() {
-				continue
+	for {
+		// every parked goroutine that can go on is a candidate: which one the scheduler picks is
+		// a choice (the Go scheduler gives no order among runnable goroutines)
+		var ready []int
+		for i, co := range vm.P.parked {
+			if co != vm.P.conc && co.ready != nil && co.ready() {
+				ready = append(ready, i)
 			}
-			vm.P.parked = append(vm.P.parked[:i:i], vm.P.parked[i+1:]...)
-			vm.stepCoro(co)
-			progress, any = true, true
-			break
 		}
+		if len(ready) == 0 {
+			return any
+		}
+		i := ready[0]
+		if len(ready) > 1 {
+			i = ready[vm.chooseLogged(len(ready))]
+		}
+		co := vm.P.parked[i]
+		vm.P.parked = append(vm.P.parked[:i:i], vm.P.parked[i+1:]...)
+		vm.stepCoro(co)
+		any = true
 	}
-	return any
 }
 
 // runPendingAt runs only the i-th queued goroutine (until it finishes or parks).
@@ -416,10 +450,16 @@ func (vm *VM) chanSend(c ChanV, v Value) {
 			vm.raceRelease(fmt.Sprintf("chan:%d", c.Obj.ID), true) // a send happens before the receive that takes it
 			return
 		}
+		if vm.co != nil {
+			vm.co.sendOn = c.Obj
+		}
 		vm.block("send on full channel", func() bool {
 			d := c.Obj.Val.(*ChanData)
 			return d.Closed || len(d.Q) < d.Cap
 		})
+		if vm.co != nil {
+			vm.co.sendOn = nil
+		}
 	}
 }
 
@@ -434,6 +474,15 @@ func (vm *VM) chanRecv(c ChanV, elem types.Type) (Value, bool) {
 			v := cd.Q[0]
 			vm.setObj(c.Obj, &ChanData{Q: append([]Value(nil), cd.Q[1:]...), Cap: cd.Cap, Closed: cd.Closed})
 			vm.raceAcquire(fmt.Sprintf("chan:%d", c.Obj.ID), true)
+			// Go hands the freed slot to a sender that is blocked on this channel at once (its
+			// value is in the buffer when the receive returns): the waiting sender goes on now
+			for i, co := range vm.P.parked {
+				if co.sendOn == c.Obj && co != vm.co {
+					vm.P.parked = append(vm.P.parked[:i:i], vm.P.parked[i+1:]...)
+					vm.stepCoro(co)
+					break
+				}
+			}
 			return v, true
 		}
 		if cd.Closed {
